@@ -2,6 +2,7 @@ package c13
 
 import (
 	"bytes"
+	"crypto/sha256"
 	"context"
 	"encoding/base64"
 	"errors"
@@ -77,6 +78,73 @@ type nopLogger struct{}
 
 func (nopLogger) Printf(string, ...interface{}) {}
 
+// slowLogger is a log sink that takes d of (virtual) time per message.
+type slowLogger struct{ d time.Duration }
+
+func (l slowLogger) Printf(string, ...interface{}) { time.Sleep(l.d) }
+
+// norm replaces a long body by its length and digest (traces and replays stay small).
+func norm(s string) string {
+	if len(s) <= 8192 {
+		return s
+	}
+	return fmt.Sprintf("<%d bytes, sha256 %x>", len(s), sha256.Sum256([]byte(s)))
+}
+
+const wsPad = " \r\n\t"
+
+// okBody renders the good 200 body of an event: valid JSON for ct.AddChainResponse carrying marker.
+func okBody(e Event, marker uint64) string {
+	id := base64.StdEncoding.EncodeToString(bytes.Repeat([]byte{0x5a}, 32))
+	sig := base64.StdEncoding.EncodeToString([]byte(goodSig))
+	mk := func(inner, ext string) string {
+		return fmt.Sprintf(`{%s"sct_version":0,"id":"%s","timestamp":%d,"extensions":"%s","signature":"%s"}`, inner, id, marker, ext, sig)
+	}
+	pre, post := "", ""
+	switch e.BodyForm {
+	case 1:
+		pre = wsPad
+	case 2:
+		post = "\n"
+	case 3:
+		pre, post = "\n\n ", " \r\n"
+	}
+	body := pre + mk("", "") + post
+	if e.BodySize > len(body) {
+		need := e.BodySize - len(body)
+		if e.BodyForm == 4 { // long extensions: base64 text, length a multiple of 4; the rest is white space
+			body = mk(strings.Repeat(" ", need%4), strings.Repeat("QUJD", need/4))
+		} else {
+			body = pre + mk(strings.Repeat(" ", need), "") + post
+		}
+	}
+	return body
+}
+
+// badPrefixed renders the unparsable-200 classes that are valid JSON spoilt by a prefix or suffix
+// (encoding/json, which decides what "parses" here, accepts none of them).
+func badPrefixed(class int, marker uint64) string {
+	good := goodBody(marker)
+	switch class {
+	case -2:
+		return "\xef\xbb\xbf" + good // UTF-8 byte order mark
+	case -3:
+		return "\x00" + good
+	case -4:
+		return ")]}'\n" + good // anti-hijacking prefix
+	case -5: // UTF-16LE with BOM
+		b := []byte{0xff, 0xfe}
+		for i := 0; i < len(good); i++ {
+			b = append(b, good[i], 0)
+		}
+		return string(b)
+	case -6:
+		return "\xfe\xff" + good
+	default:
+		return good + "\x00"
+	}
+}
+
 type scriptedRT struct {
 	mu    sync.Mutex
 	start time.Time
@@ -98,7 +166,13 @@ func (rt *scriptedRT) barrier(ctx context.Context, n int) bool {
 		rt.release[n] = ch
 	}
 	rt.arrived[n]++
-	if rt.arrived[n] == len(rt.c.Callers) {
+	want := 0 // the callers whose script says they make an attempt number n at a barrier
+	for _, cc := range rt.c.Callers {
+		if n < len(cc.Script) && cc.Script[n].Barrier {
+			want++
+		}
+	}
+	if rt.arrived[n] == want {
 		close(ch)
 	}
 	rt.mu.Unlock()
@@ -249,10 +323,10 @@ func (rt *scriptedRT) RoundTrip(req *http.Request) (*http.Response, error) {
 		finish(func(a *Attempt) {})
 		return mkResponse(req, e.Redirect, h, ""), nil
 	}
-	if !vt.Sleep(ctx, time.Duration(e.LatMs)*time.Millisecond) {
+	if e.Barrier && !rt.barrier(ctx, ai) {
 		return abort()
 	}
-	if e.Barrier && !rt.barrier(ctx, ai) {
+	if !vt.Sleep(ctx, time.Duration(e.LatMs)*time.Millisecond) {
 		return abort()
 	}
 	marker := uint64(ci+1)*1000000 + uint64(ai)
@@ -261,22 +335,30 @@ func (rt *scriptedRT) RoundTrip(req *http.Request) (*http.Response, error) {
 		finish(func(a *Attempt) { a.Method = req.Method })
 		return nil, scriptedNetErr(e.NetErr)
 	case "ok":
-		body := goodBody(marker)
-		finish(func(a *Attempt) { a.Method, a.Status, a.Body, a.Marker = req.Method, 200, body, marker })
+		body := okBody(e, marker)
+		finish(func(a *Attempt) { a.Method, a.Status, a.Body, a.Marker = req.Method, 200, norm(body), marker })
 		return mkResponse(req, 200, nil, body), nil
 	case "bad":
-		if e.BadBody < 0 { // the body transfer fails after a few bytes: a transport error on a 200
+		if e.BadBody == -1 { // the body transfer fails after a few bytes: a transport error on a 200
 			body := goodBody(marker)[:20]
 			finish(func(a *Attempt) { a.Method, a.Status, a.Body = req.Method, 200, body })
 			rsp := mkResponse(req, 200, nil, "")
 			rsp.Body, rsp.ContentLength = io.NopCloser(io.MultiReader(strings.NewReader(body), brokenReader{})), -1
 			return rsp, nil
 		}
-		body := badBodies[e.BadBody]
+		var body string
+		if e.BadBody < -1 {
+			body = badPrefixed(e.BadBody, marker)
+		} else {
+			body = badBodies[e.BadBody]
+		}
 		finish(func(a *Attempt) { a.Method, a.Status, a.Body = req.Method, 200, body })
 		return mkResponse(req, 200, nil, body), nil
 	}
 	body := fmt.Sprintf("status %d for caller %d attempt %d", e.Status, ci, ai)
+	if e.BodySize > len(body) {
+		body += " " + strings.Repeat("x", e.BodySize-len(body)-2) + "."
+	}
 	h := http.Header{}
 	now := time.Now()
 	var notBefore time.Time
@@ -300,7 +382,7 @@ func (rt *scriptedRT) RoundTrip(req *http.Request) (*http.Response, error) {
 		h.Set("Retry-After", e.RA.Text)
 	}
 	finish(func(a *Attempt) {
-		a.Method, a.Status, a.Body = req.Method, e.Status, body
+		a.Method, a.Status, a.Body = req.Method, e.Status, norm(body)
 		if (e.Status == 429 || e.Status == 503) && !notBefore.IsZero() && !notBefore.Before(now) {
 			a.Demand = true
 			a.NotBefore = notBefore.Sub(rt.start)
@@ -344,7 +426,11 @@ func run(t *testing.T, c Case, outp *Outcome) {
 		for i := range rt.open {
 			rt.open[i] = -1
 		}
-		lc, err := client.New("http://log.test/prefix", &http.Client{Transport: rt, Timeout: time.Duration(c.ClientTimeoutMs) * time.Millisecond}, jsonclient.Options{Logger: nopLogger{}})
+		var logger jsonclient.Logger = nopLogger{}
+		if c.LogDelayMs > 0 {
+			logger = slowLogger{time.Duration(c.LogDelayMs) * time.Millisecond}
+		}
+		lc, err := client.New("http://log.test/prefix", &http.Client{Transport: rt, Timeout: time.Duration(c.ClientTimeoutMs) * time.Millisecond}, jsonclient.Options{Logger: logger})
 		if err != nil {
 			panic(err)
 		}
@@ -429,7 +515,7 @@ func run(t *testing.T, c Case, outp *Outcome) {
 		}
 		for i := range out.Calls {
 			if out.Calls[i].bodyRef != nil {
-				out.Calls[i].Body = string(out.Calls[i].bodyRef)
+				out.Calls[i].Body = norm(string(out.Calls[i].bodyRef))
 			}
 		}
 	})
